@@ -1,4 +1,5 @@
 import Enc.Model.Json.Scan
+import Enc.Model.Json.Stream
 import Enc.Spec.Json.Grammar
 /-! line-protocol handlers, area `json` (syntax layer). -/
 namespace Enc.Driver.Json
@@ -15,6 +16,46 @@ def handle (op : String) (args : List String) : Option (String × String × Stri
     let b ← fromHex h
     let k := if Spec.Json.validRFC b && !Spec.Json.validStd b then "jsonDepthOver10000" else ""
     pure ("-", boolStr (Spec.Json.validStd b), k)
+  -- json.stream <events> <final>: events = comma-separated d:<hex> (data) | e:<hex> (data delivered with the final error)
+  | "json.stream", [evs, fin] => do
+    let final := if fin == "eof" then Model.Json.Stream.RErr.eof else .other
+    let evl ← (evs.splitOn ",").filter (· ≠ "") |>.mapM fun e =>
+      match e.splitOn ":" with
+      | ["d", h] => (fromHex h).map fun b => ({ data := b, err := none } : Model.Json.Stream.Ev)
+      | ["e", h] => (fromHex h).map fun b => ({ data := b, err := some final } : Model.Json.Stream.Ev)
+      | _ => none
+    let outs := Model.Json.Stream.decodeAll Gen.c_json_minBufferSize Gen.c_json_minReadSize 100000
+      { reader := evl, final := final }
+    let all : Bytes := (evl.map (·.data)).flatten
+    let showOut : Model.Json.Stream.Out → String
+      | .value raw _ => toHex raw
+      | .eof => "EOF" | .unexpectedEof => "ERR" | .syntax => "ERR" | .readerErr => "RERR"
+    -- spec: the top-level values of the concatenated bytes (RFC grammar), then how the stream ends
+    let rec specVals (fuel : Nat) (b : Bytes) (acc : List String) : List String :=
+      match fuel with
+      | 0 => acc.reverse
+      | fuel + 1 =>
+        let b := Spec.Json.ws b
+        if b.isEmpty then ("EOF" :: acc).reverse
+        else match Spec.Json.value (3 * b.length + 8) (b.length + 1) b with
+          | some r => specVals fuel r (toHex (b.take (b.length - r.length)) :: acc)
+          | none => ("ERR" :: acc).reverse
+    let s := if fin == "eof" then String.intercalate "," (specVals (all.length + 2) all []) ++ ";off=1;buf=1" else "-"
+    let m := String.intercalate "," (outs.map showOut) ++ ";off=1;buf=1"
+    -- canonical forms: model END markers → compare on values + class of the end
+    pure (m, s, "")
+  -- json.parserem <hex>: remainder returned by Parse = bytes after the first value and its trailing white space
+  | "json.parserem", [h] => do
+    let b ← fromHex h
+    let b0 := Model.Json.skipSpaces b
+    let m := match Model.Json.parseValue (Model.Json.internalParseFlags b) (Model.Json.fuelFor b0) b0 with
+      | .ok _ r => "ok:" ++ toHex (Model.Json.skipSpaces r)
+      | .err _ => "err"
+    let b1 := Spec.Json.ws b
+    let s := match Spec.Json.value (3 * b1.length + 8) (b1.length + 1) b1 with
+      | some r => "ok:" ++ toHex (Spec.Json.ws r)
+      | none => "err"
+    pure (m, s, "")
   | _, _ => none
 
 end Enc.Driver.Json
